@@ -29,6 +29,15 @@ type Profile struct {
 	Masking bool
 	// MaxSnaps etc.
 	MaxSnaps, MaxIters, MaxBatches, MaxEFOS int
+	// CrashGen, if set, draws the crash plan of the case.
+	CrashGen func(t *rapid.T, o OptPlan) *CrashPlan
+	// DurableIngest makes the generator flush before an ingest/excise whenever
+	// earlier commits are not yet durable (an ingestion becomes durable through
+	// the MANIFEST while earlier unsynced WAL writes may be lost, so the
+	// recovered state would not be a prefix of the history; see DESIGN.md §3.5).
+	DurableIngest bool
+	// SyncPct is the percentage of commits issued with Sync (default 25).
+	SyncPct int
 }
 
 type wchoice struct {
@@ -55,7 +64,7 @@ func pick(t *rapid.T, label string, ws []wchoice) string {
 }
 
 // fixed order so that weights map to the same draws regardless of map order.
-var stepOrder = []string{"write", "get", "scan", "batch", "flush", "iternew", "iterop", "iterclose", "compact", "wait",
+var stepOrder = []string{"write", "get", "scan", "batch", "flush", "iternew", "iterop", "iterclose", "compact", "wait", "crashrestart", "orgd",
 	"snap", "snapread", "snapclose", "bigbatch", "ingest", "restart", "ingestexcise", "excise", "iterclone",
 	"ibnew", "ibop", "ibread", "ibcommit", "ibclose", "efos", "efosread", "efoswait", "efosclose",
 	"checkpoint", "ratchet", "scaninternal", "maint"}
@@ -81,9 +90,18 @@ type gen struct {
 	ibOps   map[int][]Op
 	steps   []Step
 	unsyncd bool
+	fmvNow  int
 }
 
-func (g *gen) fmv() pebble.FormatMajorVersion { return pebble.FormatMajorVersion(g.opt.FMV) }
+func drawInt(g *gen, label string, lo, hi int) int { return rapid.IntRange(lo, hi).Draw(g.t, label) }
+
+func rapidSurv(g *gen, label string) int {
+	return rapid.SampledFrom([]int{0, 1, 2, 3, 5, 7, 11}).Draw(g.t, label+"surv")
+}
+
+func (g *gen) fmv() pebble.FormatMajorVersion {
+	return pebble.FormatMajorVersion(max(g.opt.FMV, g.fmvNow))
+}
 
 func (g *gen) prefix(label string) string {
 	// 70% among the first five prefixes to force collisions
@@ -308,6 +326,22 @@ func (g *gen) seekKey(label string) string {
 
 func (g *gen) newID() int { g.nid++; return g.nid }
 
+// drawSync draws the Sync flag of a commit and tracks whether undurable
+// commits exist.
+func (g *gen) drawSync(label string) bool {
+	pct := g.p.SyncPct
+	if pct == 0 {
+		pct = 25
+	}
+	sync := rapid.IntRange(0, 99).Draw(g.t, label+"sync") < pct
+	if !sync || g.opt.DisableWAL {
+		g.unsyncd = true
+	} else {
+		g.unsyncd = false
+	}
+	return sync
+}
+
 func remove(l []int, id int) []int {
 	out := l[:0:0]
 	for _, x := range l {
@@ -467,11 +501,15 @@ func Generate(t *rapid.T, p Profile) Plan {
 	g := &gen{t: t, p: p, st: NewState(), sd: map[string]*sdState{}, efosRg: map[int][][2]string{},
 		iterOn: map[int]string{}, iterEf: map[int]int{}, ibOps: map[int][]Op{}}
 	g.opt = GenOptions(t, p)
+	var cp *CrashPlan
+	if p.CrashGen != nil {
+		cp = p.CrashGen(t, g.opt)
+	}
 	n := rapid.IntRange(p.MinSteps, p.MaxSteps).Draw(t, "nsteps")
 	for i := 0; i < n; i++ {
 		g.step(fmt.Sprintf("s%d", i))
 	}
-	return Plan{Profile: p.Name, Opt: g.opt, Steps: g.steps}
+	return Plan{Profile: p.Name, Opt: g.opt, Steps: g.steps, Crash: cp}
 }
 
 func (g *gen) readerChoice(label string) (string, int) {
@@ -544,7 +582,7 @@ func (g *gen) step(label string) {
 	case "write":
 		o := g.writeOp(label, false)
 		s.Ops = []Op{o}
-		s.Sync = rapid.IntRange(0, 3).Draw(g.t, label+"sync") == 0
+		s.Sync = g.drawSync(label)
 		g.commitOps(s.Ops)
 	case "batch", "bigbatch":
 		s.K = "write"
@@ -561,12 +599,15 @@ func (g *gen) step(label string) {
 				VLen: g.opt.MemTableSize/2 + rapid.IntRange(0, 2000).Draw(g.t, label+"bigl")})
 			g.sdNote(s.Ops[len(s.Ops)-1])
 		}
-		s.Sync = rapid.IntRange(0, 3).Draw(g.t, label+"sync") == 0
+		s.Sync = g.drawSync(label)
 		s.NoSyncWait = rapid.IntRange(0, 5).Draw(g.t, label+"nsw") == 0
 		g.st = g.st.Apply(s.Ops)
 	case "flush", "wait", "restart":
 		if kind == "restart" {
 			g.snaps, g.iters, g.ibs, g.efos = nil, nil, nil, nil
+		}
+		if kind != "wait" {
+			g.unsyncd = false
 		}
 	case "compact":
 		s.A, s.B = g.span(label + "sp")
@@ -579,6 +620,10 @@ func (g *gen) step(label string) {
 		if len(s.Tables) == 0 {
 			s.K = "wait"
 			break
+		}
+		if g.p.DurableIngest && g.unsyncd {
+			g.steps = append(g.steps, Step{K: "flush"})
+			g.unsyncd = false
 		}
 		exA, exB := "", ""
 		if kind == "ingestexcise" {
@@ -602,6 +647,10 @@ func (g *gen) step(label string) {
 			}
 		}
 	case "excise":
+		if g.p.DurableIngest && g.unsyncd {
+			g.steps = append(g.steps, Step{K: "flush"})
+			g.unsyncd = false
+		}
 		s.A, s.B = g.span(label + "ex")
 		n := g.st.clone()
 		n.exciseSpan(s.A, s.B)
@@ -677,7 +726,7 @@ func (g *gen) step(label string) {
 		}
 	case "ibcommit":
 		s.ID = rapid.SampledFrom(g.ibs).Draw(g.t, label+"id")
-		s.Sync = rapid.IntRange(0, 3).Draw(g.t, label+"sync") == 0
+		s.Sync = g.drawSync(label)
 		g.ibs = remove(g.ibs, s.ID)
 		g.commitOps(g.ibOps[s.ID])
 		delete(g.ibOps, s.ID)
